@@ -295,6 +295,14 @@ def build_cases(chk, table=()):
         for x in names:
             if x in fixed_text[feat] and x not in ("serde", "serde_json", "tokio", "axum"):
                 add("feat_%s_%s" % (feat, x), {"main.incn": "import rust::%s\n\n" % x + pre + main}, crates=[x])
+    # feature-managed crate names imported through `rust::` with the corresponding feature ON and OFF (added after seed C15-4:
+    # `rust::axum` without any web trigger was written as `axum = "*"`): in every context the crate is pinned or refused
+    for feat, (pre, main) in FEATURES.items():
+        for x in ("serde", "serde_json", "tokio", "axum"):
+            for form in ("import rust::%s\n", "from rust::%s import Thing\n", "import rust::%s::sub::Item\n"):
+                add("managed_%s_%s_%d" % (feat, x, len(cases)), {"main.incn": form % x + "\n" + pre + main})
+    add("managed_dep_axum", {"main.incn": "from util import one\n\ndef main() -> None:\n    println(one())\n",
+                             "util.incn": "from rust::axum import Router\n\npub def one() -> int:\n    return 1\n"})
     for x in names:
         for y, spec in table:
             if x != y and (x in y or x in spec):
